@@ -3,13 +3,17 @@ package main
 import (
 	"bytes"
 	"fmt"
+	"io"
 	"math"
 	"strings"
+	"sync"
+	"testing/iotest"
 	"time"
 
 	"github.com/ipfs/go-cid"
 	"github.com/ipld/go-ipld-prime"
 	"github.com/ipld/go-ipld-prime/codec/dagcbor"
+	"github.com/ipld/go-ipld-prime/codec/dagjson"
 	"github.com/ipld/go-ipld-prime/datamodel"
 	cidlink "github.com/ipld/go-ipld-prime/linking/cid"
 	"github.com/ipld/go-ipld-prime/node/basicnode"
@@ -410,35 +414,133 @@ func (e *tokEnv) facts(n datamodel.Node, raw []byte) W {
 	return WMap(KV{"hdr", hdr}, KV{"verify", WBool(verify)}, KV{"spbytes", WBytes(spb)}, KV{"canonical", WBool(canonical)})
 }
 
+// par evaluates independent observations concurrently (the decoders under test share no state)
+func par(fs ...func() W) []W {
+	out := make([]W, len(fs))
+	var wg sync.WaitGroup
+	for i, f := range fs {
+		wg.Add(1)
+		go func(i int, f func() W) {
+			defer wg.Done()
+			out[i] = safe(f)
+		}(i, f)
+	}
+	wg.Wait()
+	return out
+}
+
+// consensus: the observation shared by a family of equivalent entry points, or a record of their disagreement
+func consensus(names []string, obs []W) W {
+	for _, o := range obs[1:] {
+		if o != obs[0] {
+			var parts []W
+			parts = append(parts, WStr("disagree"))
+			for i, x := range obs {
+				parts = append(parts, WList(WStr(names[i]), x))
+			}
+			return WList(parts...)
+		}
+	}
+	return obs[0]
+}
+
 func (e *tokEnv) offer(tag string, b []byte) {
 	n, derr := ipld.Decode(b, dagcbor.Decode)
-	og := safe(func() W {
-		tk, _, err := token.FromSealed(b)
+	gen := func(tk token.Token, err error) W {
 		if err != nil {
 			return errObs()
 		}
 		return anyTokenW(tk)
-	})
-	od := safe(func() W {
-		tk, _, err := delegation.FromSealed(b)
+	}
+	dl := func(tk *delegation.Token, err error) W {
 		if err != nil {
 			return errObs()
 		}
 		return dlgFieldsW(tk)
-	})
-	oi := safe(func() W {
-		tk, _, err := invocation.FromSealed(b)
+	}
+	iv := func(tk *invocation.Token, err error) W {
 		if err != nil {
 			return errObs()
 		}
 		return invFieldsW(tk)
-	})
+	}
+	rd := func() io.Reader { return bytes.NewReader(b) }
+	eofrd := func() io.Reader { return iotest.DataErrReader(bytes.NewReader(b)) }
+	// family 1: the sealed entry points (canonical bytes required), buffered and streaming
+	sn := []string{"FromSealed", "FromSealedReader", "FromSealedReader(data+EOF)"}
+	fam := [][]func() W{
+		{func() W { tk, _, err := token.FromSealed(b); return gen(tk, err) },
+			func() W { tk, _, err := token.FromSealedReader(rd()); return gen(tk, err) },
+			func() W { tk, _, err := token.FromSealedReader(eofrd()); return gen(tk, err) }},
+		{func() W { tk, _, err := delegation.FromSealed(b); return dl(tk, err) },
+			func() W { tk, _, err := delegation.FromSealedReader(rd()); return dl(tk, err) },
+			func() W { tk, _, err := delegation.FromSealedReader(eofrd()); return dl(tk, err) }},
+		{func() W { tk, _, err := invocation.FromSealed(b); return iv(tk, err) },
+			func() W { tk, _, err := invocation.FromSealedReader(rd()); return iv(tk, err) },
+			func() W { tk, _, err := invocation.FromSealedReader(eofrd()); return iv(tk, err) }},
+	}
+	names := [][]string{sn, sn, sn}
+	// family 2: the plain DAG-CBOR entry points, the node-level ones, and the DAG-JSON ones on the DAG-JSON
+	// rendering of the same node (when that rendering reads back as the same node)
+	if derr == nil {
+		var js []byte
+		if j, err := ipld.Encode(n, dagjson.Encode); err == nil {
+			if n2, err := ipld.Decode(j, dagjson.Decode); err == nil && datamodel.DeepEqual(n, n2) {
+				js = j
+			}
+		}
+		gn := []string{"FromDagCbor", "FromDagCborReader", "Decode(cbor)", "DecodeReader(cbor)"}
+		tn := append(append([]string{}, gn...), "FromIPLD")
+		fg := []func() W{
+			func() W { return gen(token.FromDagCbor(b)) },
+			func() W { return gen(token.FromDagCborReader(rd())) },
+			func() W { return gen(token.Decode(b, dagcbor.Decode)) },
+			func() W { return gen(token.DecodeReader(eofrd(), dagcbor.Decode)) }}
+		fd := []func() W{
+			func() W { return dl(delegation.FromDagCbor(b)) },
+			func() W { return dl(delegation.FromDagCborReader(rd())) },
+			func() W { return dl(delegation.Decode(b, dagcbor.Decode)) },
+			func() W { return dl(delegation.DecodeReader(eofrd(), dagcbor.Decode)) },
+			func() W { return dl(delegation.FromIPLD(n)) }}
+		fi := []func() W{
+			func() W { return iv(invocation.FromDagCbor(b)) },
+			func() W { return iv(invocation.FromDagCborReader(rd())) },
+			func() W { return iv(invocation.Decode(b, dagcbor.Decode)) },
+			func() W { return iv(invocation.DecodeReader(eofrd(), dagcbor.Decode)) },
+			func() W { return iv(invocation.FromIPLD(n)) }}
+		gnames, dnames, inames := gn, tn, append([]string{}, tn...)
+		if js != nil {
+			jr := func() io.Reader { return bytes.NewReader(js) }
+			jn := []string{"FromDagJson", "FromDagJsonReader", "Decode(json)"}
+			gnames, dnames, inames = append(append([]string{}, gnames...), jn...), append(append([]string{}, dnames...), jn...), append(inames, jn...)
+			fg = append(fg, func() W { return gen(token.FromDagJson(js)) }, func() W { return gen(token.FromDagJsonReader(jr())) },
+				func() W { return gen(token.Decode(js, dagjson.Decode)) })
+			fd = append(fd, func() W { return dl(delegation.FromDagJson(js)) }, func() W { return dl(delegation.FromDagJsonReader(jr())) },
+				func() W { return dl(delegation.Decode(js, dagjson.Decode)) })
+			fi = append(fi, func() W { return iv(invocation.FromDagJson(js)) }, func() W { return iv(invocation.FromDagJsonReader(jr())) },
+				func() W { return iv(invocation.Decode(js, dagjson.Decode)) })
+		}
+		fam = append(fam, fg, fd, fi)
+		names = append(names, gnames, dnames, inames)
+	}
+	// all observations of the case at once, then one consensus per family
+	var all []func() W
+	for _, f := range fam {
+		all = append(all, f...)
+	}
+	res := par(all...)
+	cons := make([]W, len(fam))
+	k := 0
+	for i, f := range fam {
+		cons[i] = consensus(names[i], res[k:k+len(f)])
+		k += len(f)
+	}
 	if derr != nil {
 		// not DAG-CBOR at all: nothing for the model to look at beyond "must be rejected"
-		e.c.Emit(tag+"/undecodable", WList(WStr("env"), WNull, e.facts(nil, b)), WList(og, od, oi, WBool(true)))
+		e.c.Emit(tag+"/undecodable", WList(WStr("env"), WNull, e.facts(nil, b)), WList(cons[0], cons[1], cons[2], WBool(true)))
 		return
 	}
-	e.c.Emit(tag, WList(WStr("env"), WNode(n), e.facts(n, b)), WList(og, od, oi, WBool(true)))
+	e.c.Emit(tag, WList(WStr("env"), WNode(n), e.facts(n, b)), WList(cons[0], cons[1], cons[2], WBool(true), cons[3], cons[4], cons[5]))
 }
 
 // signEnvelope seals an arbitrary payload node the way go-ucan does, with go-ipld-prime and libp2p only.
